@@ -2,8 +2,9 @@
 import io
 import logging
 import math
+from fractions import Fraction as F
 
-from harness.common import stable_hash
+from harness.common import stable_hash, fr
 from harness import nano, render
 
 PID = "C13"
@@ -17,13 +18,24 @@ OBLIGATIONS = [
     "NanoVerif.C16.radial_similarity",
     "NanoVerif.C16.decomposeUniform_exact",
     "NanoVerif.C02.linear_p3_sound",
+    "NanoVerif.C13.colr_to_svg_preserves",
+    "NanoVerif.C13.toSvg_correct",
+    "NanoVerif.C13.fill_correct",
+    "NanoVerif.C13.maxAlg_laws",
 ]
 DESIGN_REF = "DESIGN.md §5 C13"
-LEVEL_TEXT = ("Partial proof (per-step theorems + sampling). Proved in Lean: the font->viewBox map inverts the C01 placement; the `transform` attribute "
-              "V^-1;T;V on a <path> places every outline point at V(T p); nested transform paints compose as outer@inner (what the walk accumulates); "
-              "with the accumulated transform reset after a <path transform>, the path's gradient mapped by V alone has the COLR parameter at every "
-              "point (issue 334); three-point linear -> two-point SVG gradient (C02.3); radial uniform/residual split (C16). NOT proved: the whole "
-              "recursive walk. That is explored on paint graphs GENERATED over the property's grammar (ColrLayers, Solid, Linear incl. rotated p2, "
+LEVEL_TEXT = ("Proof of the recursive walk for the solid/linear subset + per-step theorems + sampling for the rest. Proved in Lean: "
+              "`colr_to_svg_preserves` — for EVERY paint graph built from PaintColrLayers, transform paints, SRC_IN/black group composites and "
+              "PaintGlyphs whose fill is solid or a linear gradient under any chain of transforms (any depth, any number of layers), the elements "
+              "`_colr_v1_paint_to_svg` emits show at V x what the COLR graph shows at x, for every pixel algebra satisfying the laws of source-over "
+              "(structural induction over the graph, mutual with layer lists: `toSvg_correct`, `fill_correct`, `pathTr_inv`, flattening of nested "
+              "layers by associativity). The Lean walk `toSvg` is tied to the real function: generated graphs of that subset are compiled with "
+              "fontTools, converted by the real colr_to_svg, and the emitted element sequence/nesting, glyph drawn, `transform` attribute and fill "
+              "(palette colour / gradient parameter at probe points) are compared with the model's output. Per-step theorems: the font->viewBox map "
+              "inverts the C01 placement; V^-1;T;V places every outline point at V(T p); nested transforms compose as outer@inner; issue 334 (gradient "
+              "not transformed twice); three-point -> two-point linear gradient (C02.3); radial uniform/residual split (C16). NOT proved: radial "
+              "gradients and PaintColrGlyph inside the recursive theorem. Those, and everything else, are explored on paint graphs GENERATED over the "
+              "property's grammar (ColrLayers, Solid, Linear incl. rotated p2, "
               "Radial r0>0 c0!=c1, Glyph over simple and composite glyphs, ColrGlyph, Transform/Translate/Scale*/Rotate*/Skew*, SRC_IN-black composite; "
               "depth <= 6; extend modes; one or two palettes; several viewBoxes), compiled with fontTools colorLib into COLRv1/COLRv0 fonts, converted "
               "by the real colr_to_svg, and sampled against the COLR graph with the reference renderer. Unsupported formats must raise or warn.")
@@ -239,6 +251,193 @@ def check_font(ctx, res, font, desc, two_palettes, case_id):
             res.add_cex("generated SVG / COLR not evaluable: " + str(e), {"glyph": g, "graphs": desc}, {"site": "colr2svg-eval", "case": case_id})
 
 
+
+# ------------------------------------------------------------------------------------------
+# Tie K for Model/ColrSvg.lean (`toSvg`): real `_colr_v1_paint_to_svg` vs the Lean walk on the same paint graph
+# ------------------------------------------------------------------------------------------
+
+def gen_subset_paint(rng, depth, npal):
+    """paint graphs of the subset the recursive theorem covers: layers, transform paints, src_in/black composite, PaintGlyph with a solid
+    or LINEAR fill possibly under transforms"""
+    r = rng.random()
+    if depth <= 1 or r < 0.3:
+        if rng.random() < 0.5:
+            fill = {"Format": 2, "PaletteIndex": rng.randrange(npal), "Alpha": rng.choice([1.0, 0.5, 0.25])}
+        else:
+            x0, y0 = rng.randint(0, 400), rng.randint(0, 400)
+            x1, y1 = x0 + rng.randint(150, 500), y0 + rng.randint(-100, 400)
+            x2, y2 = (x0 - (y1 - y0), y0 + (x1 - x0)) if rng.random() < 0.5 else (x0 + rng.randint(-300, 300), y0 + rng.randint(100, 500))
+            if (x1 - x0) * (y2 - y0) - (y1 - y0) * (x2 - x0) == 0:
+                y2 += 77
+            fill = {"Format": 4, "ColorLine": gen_colorline(rng, npal), "x0": x0, "y0": y0, "x1": x1, "y1": y1, "x2": x2, "y2": y2}
+        for _ in range(rng.choice([0, 0, 1, 2])):
+            fill = gen_transform_wrap(rng, fill)
+        return {"Format": 10, "Glyph": rng.choice(["sq", "tri", "big"]), "Paint": fill}
+    if r < 0.55:
+        return {"Format": 1, "Layers": [gen_subset_paint(rng, depth - 1, npal) for _ in range(rng.randint(1, 3))]}
+    if r < 0.85:
+        return gen_transform_wrap(rng, gen_subset_paint(rng, depth - 1, npal))
+    return {"Format": 32, "CompositeMode": "src_in", "SourcePaint": gen_subset_paint(rng, depth - 1, npal),
+            "BackdropPaint": {"Format": 2, "PaletteIndex": 0, "Alpha": rng.choice([0.5, 0.25, 0.75])}}
+
+
+GLYPH_IDX = {"sq": 1, "tri": 2, "big": 3}
+
+
+def ot_to_cp(font, p):
+    """decompiled otTables.Paint -> the CP json of the Lean model (exact values as stored in the font)"""
+    from nanoemoji.paint import Paint, is_transform
+    f = p.Format
+    if f == 2:
+        return {"k": "solid", "c": str(p.PaletteIndex), "a": fr(F(p.Alpha))}
+    if f == 4:
+        return {"k": "lin", "g": [str(v) for v in (p.x0, p.y0, p.x1, p.y1, p.x2, p.y2)], "l": "0"}
+    if f == 10:
+        return {"k": "glyph", "o": str(GLYPH_IDX[p.Glyph]), "child": ot_to_cp(font, p.Paint)}
+    if f == 1:
+        ll = font["COLR"].table.LayerList.Paint
+        return {"k": "layers", "ps": [ot_to_cp(font, q) for q in ll[p.FirstLayerIndex:p.FirstLayerIndex + p.NumLayers]]}
+    if f == 32:
+        return {"k": "group", "alpha": fr(F(p.BackdropPaint.Alpha)), "child": ot_to_cp(font, p.SourcePaint)}
+    if is_transform(f):
+        m = Paint.from_ot(p).gettransform()
+        return {"k": "transform", "m": [fr(F(v)) for v in m], "child": ot_to_cp(font, p.Paint)}
+    raise ValueError("outside the subset: format %d" % f)
+
+
+def real_svg_structure(root, V, font):
+    """the elements the real converter emitted, in document order, as comparable records"""
+    from picosvg.svg_transform import Affine2D
+    from picosvg.svg_types import SVGPath
+    gs = font.getGlyphSet()
+    from fontTools.pens.boundsPen import ControlBoundsPen
+    vb = {}
+    for name in GLYPH_IDX:
+        bp = ControlBoundsPen(gs)
+        gs[name].draw(bp)
+        b = bp.bounds
+        pts = [V.map_point(q) for q in ((b[0], b[1]), (b[2], b[3]), (b[0], b[3]), (b[2], b[1]))]
+        vb[name] = (min(q[0] for q in pts), min(q[1] for q in pts), max(q[0] for q in pts), max(q[1] for q in pts))
+    defs = {el.get("id"): el for el in root.iter() if el.get("id")}
+
+    def rec(el):
+        out = []
+        for ch in el:
+            tag = ch.tag.split("}")[-1] if isinstance(ch.tag, str) else None
+            if tag == "path":
+                bb = SVGPath(d=ch.get("d")).bounding_box()
+                box = (bb.x, bb.y, bb.x + bb.w, bb.y + bb.h)
+                name = min(vb, key=lambda n: max(abs(a - b) for a, b in zip(vb[n], box)))
+                tr = Affine2D.fromstring(ch.get("transform")) if ch.get("transform") else Affine2D.identity()
+                fill = ch.get("fill", "black")
+                rec_ = {"k": "path", "o": GLYPH_IDX[name], "box_err": max(abs(a - b) for a, b in zip(vb[name], box)), "tr": tuple(tr)}
+                if fill.startswith("url("):
+                    g = defs[fill[5:-1]]
+                    rec_["fill"] = {"k": "lin", "x1": float(g.get("x1", 0)), "y1": float(g.get("y1", 0)), "x2": float(g.get("x2", 0)), "y2": float(g.get("y2", 0)),
+                                    "gt": tuple(Affine2D.fromstring(g.get("gradientTransform"))) if g.get("gradientTransform") else tuple(Affine2D.identity()),
+                                    "tag": g.tag.split("}")[-1]}
+                else:
+                    rec_["fill"] = {"k": "solid", "color": fill, "opacity": float(ch.get("opacity", 1))}
+                out.append(rec_)
+            elif tag == "g":
+                out.append({"k": "g", "opacity": float(ch.get("opacity", 1)), "kids": rec(ch)})
+        return out
+    return rec(root)
+
+
+def compare_structure(real, model, palette, pts):
+    """None if equal (within the 3-decimal rounding of the writer), else a description"""
+    if len(real) != len(model):
+        return f"{len(real)} elements vs {len(model)} in the model"
+    for r, m in zip(real, model):
+        if r["k"] != m["k"]:
+            return f"element kind {r['k']} vs {m['k']}"
+        if r["k"] == "g":
+            if abs(r["opacity"] - float(F(m["opacity"]))) > 2e-3:
+                return "group opacity"
+            d = compare_structure(r["kids"], m["kids"], palette, pts)
+            if d:
+                return d
+            continue
+        if r["o"] != int(m["o"]) or r["box_err"] > 0.05:
+            return f"path draws glyph {r['o']} (box error {r['box_err']:.3f}), model says {m['o']}"
+        mt = [float(F(v)) for v in m["tr"]]
+        if any(abs(a - b) > 2e-3 * max(1.0, abs(b)) for a, b in zip(r["tr"], mt)):
+            return f"transform attribute {r['tr']} vs model {mt}"
+        rf, mf = r["fill"], m["fill"]
+        if rf["k"] != mf["k"]:
+            return f"fill kind {rf['k']} vs {mf['k']}"
+        if rf["k"] == "solid":
+            c = palette[int(mf["c"])]
+            from nanoemoji.colors import Color
+            rc = Color.fromstring(rf["color"])
+            if (rc.red, rc.green, rc.blue) != tuple(round(255 * v) for v in c[:3]) or abs(rf["opacity"] * rc.alpha - float(F(mf["a"])) * c[3]) > 2e-3:
+                return f"solid fill {rf} vs palette entry {mf}"
+        else:
+            if rf["tag"] != "linearGradient":
+                return "gradient element kind"
+            g = [float(F(v)) for v in mf["g"]]
+            import math
+            from harness import render
+            inv = render.inv(rf["gt"])
+            for z in pts:
+                tm = render.linear_param((g[0], g[1]), (g[2], g[3]), z, (g[4], g[5]))
+                zz = render.app(inv, z) if inv else z
+                tr_ = render.linear_param((rf["x1"], rf["y1"]), (rf["x2"], rf["y2"]), zz)
+                if tm is None or tr_ is None or abs(tm - tr_) > 5e-3 * (1 + abs(tm)):
+                    return f"linear gradient parameter at {z}: real {tr_} vs model {tm}"
+    return None
+
+
+def suite_tosvg_model(ctx, res, n):
+    from fontTools.colorLib import builder
+    from fontTools import ttLib
+    from nanoemoji import colr_to_svg as c2s
+    from picosvg.geometric_types import Rect
+
+    rng = ctx.rng
+    ops, meta = [], []
+    for k in range(n):
+        font = build_base_font()
+        glyphs = {"A": gen_subset_paint(rng, rng.randint(1, 5), len(PALETTE0))}
+        try:
+            font["COLR"] = builder.buildCOLR(glyphs, version=1)
+        except Exception:  # noqa  (value not representable in the chosen paint format)
+            continue
+        font["CPAL"] = builder.buildCPAL([PALETTE0])
+        buf = io.BytesIO()
+        font.save(buf)
+        font = ttLib.TTFont(io.BytesIO(buf.getvalue()), lazy=False)
+        vb = rng.choice([(0, 0, 100, 100), (0, 0, 1000, 1000), (10, -5, 128, 128)])
+        try:
+            svgs = c2s.colr_to_svg(lambda g: Rect(*vb), font)
+        except Exception as e:  # noqa
+            res.stat("tosvg:real-raises:" + type(e).__name__)
+            continue
+        V = c2s.map_font_space_to_viewbox(Rect(*vb), c2s.glyph_region(font, "A"))
+        rec = next(r for r in font["COLR"].table.BaseGlyphList.BaseGlyphPaintRecord if r.BaseGlyph == "A")
+        try:
+            cp = ot_to_cp(font, rec.Paint)
+        except (ValueError, KeyError):
+            continue
+        root = svgs["A"].svg_root
+        real = real_svg_structure(root, V, font)
+        ops.append({"op": "colr-to-svg", "paint": cp, "V": [fr(F(v)) for v in V]})
+        pts = [(vb[0] + vb[2] * a, vb[1] + vb[3] * b) for a, b in ((0.2, 0.3), (0.7, 0.4), (0.5, 0.8), (0.1, 0.9), (0.9, 0.1))]
+        meta.append((glyphs["A"], real, pts, vb))
+    for (desc, real, pts, vb), m in zip(meta, ctx.driver.run(ops)):
+        res.count(key=("tosvg", stable_hash(desc)), nontrivial=True)
+        if "svg" not in m:
+            res.add_tie_break("toSvg model (driver error)", {"paint": desc}, m, real)
+            continue
+        d = compare_structure(real, m["svg"], PALETTE0, pts)
+        res.stat("tosvg:" + ("agree" if d is None else "differ"))
+        if d is not None:
+            res.add_tie_break("_colr_v1_paint_to_svg vs Model/ColrSvg.lean toSvg: " + d, {"paint": desc, "view_box": vb}, m["svg"], real)
+    if meta:
+        res.sample({"suite": "toSvg model tie", "paint": meta[-1][0]})
+
+
 def suite_unsupported(ctx, res):
     """paint formats outside the supported set must raise or warn"""
     from fontTools.colorLib import builder
@@ -284,6 +483,7 @@ def run(ctx, res):
                 "fontTools colorLib (COLRv1 and COLRv0), 1-2 palettes, viewBoxes {100,1000,128@(10,-5),24}; each glyph sampled on a jittered 11x11 grid "
                 "+ layer centres; non-trivial = every font")
     suite_unsupported(ctx, res)
+    suite_tosvg_model(ctx, res, ctx.budget(60, 1500))
     n = ctx.budget(30, 700)
     for k in range(n):
         version = 1 if k % 5 else 0
